@@ -87,3 +87,56 @@ def view(iso, ns, with_data=True, max_data=8 << 20, expect=None):
                         data = ('error', type(e).__name__, str(e))
             out[p] = ('file', length, data, None, hidden)
     return out
+
+
+def consistency(iso, ns, av, limit=400):
+    """Cross-checks between the public query calls for the entries of a view: the path
+    full_path_from_dirrecord() gives for a record found at path p is p again, and list_children()
+    of a directory names exactly the entries walk() reported below it.  Returns [(key, detail)]."""
+    key = KEY[ns]
+    probs = []
+    children = {}
+    for p in av:
+        parent = p.rsplit('/', 1)[0] or '/'
+        children.setdefault(parent, set()).add(p.rsplit('/', 1)[1])
+    n = 0
+    for p, e in sorted(av.items()):
+        if n >= limit:
+            break
+        n += 1
+        try:
+            rec = iso.get_record(**{key: p})
+        except Exception as ex:
+            probs.append(('api:get_record-raises:%s' % type(ex).__name__, '%s %s: %s' % (ns, p, ex)))
+            continue
+        if rec is None:
+            continue
+        try:
+            fp = iso.full_path_from_dirrecord(rec, rockridge=(ns == 'rr'))
+        except Exception as ex:
+            probs.append(('api:full_path-raises:%s' % type(ex).__name__, '%s %s: %s' % (ns, p, ex)))
+            continue
+        if fp != p:
+            probs.append(('api:full_path:%s' % ns, 'record found at %r reports the path %r' % (p[:100], fp[:100])))
+        if e[0] == 'dir':
+            try:
+                names = set()
+                for c in iso.list_children(**{key: p}):
+                    if c is None:
+                        continue
+                    if ns == 'udf':
+                        if c.is_dotdot() if hasattr(c, 'is_dotdot') else False:
+                            continue
+                        nm = iso.full_path_from_dirrecord(c).rsplit('/', 1)[1]
+                    else:
+                        if c.is_dot() or c.is_dotdot():
+                            continue
+                        nm = iso.full_path_from_dirrecord(c, rockridge=(ns == 'rr')).rsplit('/', 1)[1]
+                    names.add(nm)
+            except Exception as ex:
+                probs.append(('api:list_children-raises:%s' % type(ex).__name__, '%s %s: %s' % (ns, p, ex)))
+                continue
+            want = children.get(p, set())
+            if names != want:
+                probs.append(('api:list_children:%s' % ns, '%r lists %s, walk() reported %s' % (p[:80], sorted(names ^ want)[:4], len(want))))
+    return probs
